@@ -169,6 +169,7 @@ func Install() {
 			End:          hookEnd,
 			Instr:        hookInstr,
 			Go:           hookGo,
+			GoNative:     hookGoNative,
 			Close:        hookClose,
 			BeforeRecv:   hookBeforeRecv,
 			BeforeSend:   hookBeforeSend,
@@ -371,6 +372,26 @@ func hookGo(parent, child *scriggo.SimSlot) {
 	}
 	pg.children++
 	child.P = pg.sim.newG(fmt.Sprintf("%s.%d", pg.ID, pg.children), true)
+}
+
+// hookGoNative runs the native function of a `go native(...)` statement in a
+// goroutine owned by the simulator, so that when it starts relative to its
+// parent is a scheduling decision like any other.
+//
+//go:norace
+func hookGoNative(parent *scriggo.SimSlot, call func()) bool {
+	pg := gOf(parent)
+	if pg == nil || pg.sim != getActive() {
+		return false
+	}
+	pg.children++
+	g := pg.sim.newG(fmt.Sprintf("%s.n%d", pg.ID, pg.children), false)
+	go func() {
+		g.park(YStart, "native")
+		call()
+		g.finish()
+	}()
+	return true
 }
 
 //go:norace
